@@ -9,6 +9,7 @@ import (
 	"strings"
 
 	"google.golang.org/protobuf/encoding/prototext"
+	"google.golang.org/protobuf/encoding/protowire"
 	vh "google.golang.org/protobuf/internal/zz_verif_vh"
 	"google.golang.org/protobuf/proto"
 	"google.golang.org/protobuf/reflect/protodesc"
@@ -451,9 +452,65 @@ func runEqual(c *C) {
 			for _, dyn := range []bool{false, true} {
 				a := newFilled(c, r, dyn, Opts{FieldProb: 3, NegZero: true})
 				equalCase(c, r, a, dyn)
+				if i%4 == 0 {
+					extShapeCase(c, r, dyn)
+				}
 			}
 		}
 	}
+}
+
+// extShapeCase: extension maps holding present-but-empty repeated extensions (as left by Mutable or by a
+// zero-length packed record) against other populated extensions.
+func extShapeCase(c *C, r *Root, dyn bool) {
+	var rep, other []protoreflect.ExtensionType
+	for _, xt := range r.Exts {
+		if xt.TypeDescriptor().ContainingMessage().FullName() != r.Flat.Root.FullName() {
+			continue
+		}
+		if xt.TypeDescriptor().IsList() {
+			rep = append(rep, xt)
+		} else if xt.TypeDescriptor().Message() == nil {
+			other = append(other, xt)
+		}
+	}
+	if len(rep) == 0 || len(other) == 0 {
+		return
+	}
+	mt := r.MT
+	if dyn {
+		mt = r.DT
+	}
+	x, y := mt.New(), mt.New()
+	e1 := rep[c.Rand.Intn(len(rep))].TypeDescriptor()
+	e2 := other[c.Rand.Intn(len(other))].TypeDescriptor()
+	x.Mutable(e1) // present but empty list
+	if c.Rand.Intn(2) == 0 {
+		// same shape through decoding: a zero-length packed record
+		b := protowire.AppendBytes(protowire.AppendTag(nil, e1.Number(), protowire.BytesType), nil)
+		x = mt.New()
+		unm(false).Unmarshal(b, x.Interface())
+	}
+	y.Set(e2, scalar(c, e2, Opts{}))
+	if y.Get(e2).Equal(e2.Default()) && !e2.HasPresence() {
+		return
+	}
+	sx, sy := r.Flat.Snap(x), r.Flat.Snap(y)
+	in := map[string]any{"type": r.Name, "family": family(dyn), "a": sx, "b": sy, "shape": "a holds an empty repeated extension " + string(e1.Name()) + ", b holds extension " + string(e2.Name())}
+	defer c.Recover("equal(ext shapes)", in, "")
+	exy, eyx := proto.Equal(x.Interface(), y.Interface()), proto.Equal(y.Interface(), x.Interface())
+	c.Check(exy == eyx, "Equal is not symmetric", in, "")
+	v := protoreflect.ValueOfMessage(x).Equal(protoreflect.ValueOfMessage(y))
+	c.Check(exy == v && eyx == v, fmt.Sprintf("proto.Equal=%v/%v but protoreflect.Value.Equal=%v", exy, eyx, v), in, "")
+	empty := mt.New()
+	if proto.Equal(empty.Interface(), x.Interface()) && exy {
+		c.Check(proto.Equal(empty.Interface(), y.Interface()), "Equal is not transitive (empty, a, b)", in, "")
+	}
+	if c.HasModel() {
+		c.Compare("equal: model eqMsg vs proto.Equal", in, fmt.Sprint(b2i(exy)), c.Ask("equal 0 %s | %s", sx, sy))
+	}
+	c.Hist("ext-shape")
+	c.Case(sx+"|"+sy+"ext", true)
 }
 
 func equalCase(c *C, r *Root, a protoreflect.Message, dyn bool) {
